@@ -55,7 +55,8 @@ static void dh_stats_sample(dh_stats_t *s, const char *fmt, ...)
 static void dh_stats_merge(dh_stats_t *a, const dh_stats_t *b)
 {
     a->states += b->states; a->transitions += b->transitions; a->executions += b->executions; a->nontrivial += b->nontrivial; a->outcomes += b->outcomes;
-    for (int i = 0; i < 8; i++) a->extra[i] += b->extra[i];
+    for (int i = 0; i < 6; i++) a->extra[i] += b->extra[i];          /* extra[0..5]: summed, extra[6..7]: maximum */
+    for (int i = 6; i < 8; i++) if (b->extra[i] > a->extra[i]) a->extra[i] = b->extra[i];
     a->exhaustive = a->exhaustive && b->exhaustive; a->violations += b->violations; a->broken += b->broken;
     for (int i = 0; i < b->nsamples && a->nsamples < 3; i++) memcpy(a->samples[a->nsamples++], b->samples[i], 480);
 }
@@ -206,6 +207,7 @@ static void dh_pool(int J, dh_worker_fn fn, void *arg, dh_stats_t *total)
             }
             if (slots[j].beat != lastbeat[j]) { lastbeat[j] = slots[j].beat; lastt[j] = dh_now(); }
             else if (dh_now() - lastt[j] > dh_hang_s && slots[j].beat > 0) {
+                { char cmd[1800]; snprintf(cmd, sizeof(cmd), "mkdir -p %s/replay; timeout 20 gdb -p %d -batch -ex 'thread apply all bt 14' > %s/replay/%s-hang-w%d-stacks.txt 2>/dev/null", dh_outdir, (int)pids[j], dh_outdir, dh_property, j); if (system(cmd)) {} }
                 kill(pids[j], SIGKILL); waitpid(pids[j], &status, 0); close(fds[j][0]); done[j] = 1; left--;
                 char msg[300]; snprintf(msg, sizeof(msg), "no progress for %.0f s: the taskpool never terminated (hang / lost task / livelock) in this case", dh_hang_s);
                 dh_worker_id = j; dh_violation_kv((const char *)slots[j].scen, (const char *)slots[j].kv, msg); total->violations++; total->exhaustive = 0;
